@@ -2,7 +2,7 @@
    Property theorems only: each is closed by [exact <lemma>] and followed by
    [Print Assumptions].  Model: Model/C17.v  Lemmas: Proofs/C17.v *)
 From Coq Require Import List NArith Bool.
-From GQ Require Import Lib.Key Lib.SMap Model.C17 Proofs.C17.
+From GQ Require Import Lib.Key Lib.SMap Model.C17 Proofs.C17 Model.C17_Table Proofs.C17_Table Model.C17_All.
 Import ListNotations.
 Local Open Scope N_scope.
 
@@ -131,3 +131,78 @@ Example kv_nonvacuous :
   = [ONone; ONone; ONone; ONone; ONone; OPend true None; OPend false (Some [7]); OPend false None;
      OVal (Some [9]); ONone; OVal None; OList [([1;3],[8]); ([1;4],[7])]].
 Proof. vm_compute. reflexivity. Qed.
+
+(* ------------------------------------------------------------------------------------------
+   The rawdb table wrapper (core/rawdb/table.go) as a layer over the store model.
+   tstep tp = what table / tableBatch / tableReplayer / tableIterator with prefix tp do to the INNER
+   database and batches; tview tp m = the entries of m under the prefix, keys stripped. *)
+
+(* For every history (without the sizing heuristic ValueSize) and every pre-existing content of the
+   inner database, the table answers exactly like an independent store holding the view. *)
+Theorem table_refines_store : forall tp db0 h, sorted db0 -> no_size h = true ->
+  trun tp (fresh db0) h = run (fresh (tview tp db0)) h.
+Proof. exact table_refines. Qed.
+Print Assumptions table_refines_store.
+
+(* Over a database that holds only foreign keys the table is a fresh store. *)
+Theorem table_over_foreign_keys_is_fresh : forall tp db0 h, sorted db0 ->
+  (forall k v, In (k, v) db0 -> has_prefix tp k = false) -> no_size h = true ->
+  trun tp (fresh db0) h = run init h.
+Proof. exact table_over_foreign. Qed.
+Print Assumptions table_over_foreign_keys_is_fresh.
+
+(* Frame: no history through the table (ValueSize included) reads or changes a key outside the prefix. *)
+Theorem table_never_touches_foreign_keys : forall tp db0 h k0, sorted db0 -> has_prefix tp k0 = false ->
+  get k0 (s_db (trun_state tp (fresh db0) h)) = get k0 db0.
+Proof. exact table_frame. Qed.
+Print Assumptions table_never_touches_foreign_keys.
+
+(* The inner database always holds, under the prefix, exactly the content of the store the table pretends to be. *)
+Theorem table_inner_content : forall tp db0 h, sorted db0 ->
+  s_db (run_state (fresh (tview tp db0)) h) = tview tp (s_db (trun_state tp (fresh db0) h))
+  /\ sorted (s_db (trun_state tp (fresh db0) h)).
+Proof. exact table_inner. Qed.
+Print Assumptions table_inner_content.
+
+(* One operation: same answer, relation kept, foreign keys untouched (the simulation step). *)
+Theorem table_step_simulation : forall tp i t o, Inv i -> R tp i t ->
+  (is_size o = false -> snd (tstep tp i o) = snd (step t o)) /\
+  R tp (fst (tstep tp i o)) (fst (step t o)) /\
+  (forall k0, has_prefix tp k0 = false -> get k0 (s_db (fst (tstep tp i o))) = get k0 (s_db i)).
+Proof. exact tstep_refines. Qed.
+Print Assumptions table_step_simulation.
+
+(* Reads through the table: exactly the prefixed cell; iteration: exactly the view's iteration. *)
+Theorem table_get_reads_prefixed_cell : forall tp k (m : smap val), sorted m ->
+  get k (tview tp m) = get (tp ++ k) m.
+Proof. intros tp k m. exact (get_tview tp k m). Qed.
+Print Assumptions table_get_reads_prefixed_cell.
+
+Theorem table_iterator_exact : forall tp p st (m : smap val),
+  strip_kvs tp (iterate (tp ++ p) st m) = iterate p st (tview tp m).
+Proof. intros tp p st m. exact (tview_iterate tp p st m). Qed.
+Print Assumptions table_iterator_exact.
+
+(* A table inside a table is a table with the concatenated prefix. *)
+Theorem table_nested : forall p q (m : smap val), tview q (tview p m) = tview (p ++ q) m.
+Proof. intros p q m. exact (tview_nested p q m). Qed.
+Print Assumptions table_nested.
+
+(* ValueSize is not transparent (a delete is sized with the prefixed key): it is outside the contract,
+   which is why the refinement excludes it and the harness never compares it. *)
+Theorem table_valuesize_not_transparent_refuted :
+  trun [116; 98; 108] (fresh []) [BDel false [1]; BSize false] <> run init [BDel false [1]; BSize false].
+Proof. exact table_valuesize_counts_prefix. Qed.
+Print Assumptions table_valuesize_not_transparent_refuted.
+
+(* non-vacuity: a table "tbl" over a store holding foreign keys around the prefix *)
+Example table_nonvacuous :
+  let tp := [116; 98; 108] in
+  let db0 := preload [([116], [1]); ([116; 98; 107], [2]); ([116; 98; 109], [3]); ([117], [4])] in
+  sortedb db0 = true /\
+  trun tp (fresh db0) [DbPut [1] [9]; BSetPending false true; BPut false [2] [8]; BGetPending false [2];
+                       BWrite false; DbIter [] []; BReplayDb false; DbGet [2]]
+  = [ONone; ONone; ONone; OPend false (Some [8]); ONone; OList [([1], [9]); ([2], [8])]; ONone; OVal (Some [8])]
+  /\ map fst (s_db (trun_state tp (fresh db0) [DbPut [1] [9]; BPut false [2] [8]; BWrite false]))
+  = [[116]; [116; 98; 107]; [116; 98; 108; 1]; [116; 98; 108; 2]; [116; 98; 109]; [117]].
+Proof. vm_compute. repeat split; reflexivity. Qed.
